@@ -7,7 +7,7 @@ import sys
 sys.path.insert(0, os.path.dirname(os.path.dirname(os.path.abspath(__file__))))
 from verif_static.core import run_check, AnalysisError  # noqa
 from verif_static.norm import same, same_stmt  # noqa
-from verif_static import model as M, cfg as C  # noqa
+from verif_static import model as M, cfg as C, norm as N  # noqa
 
 SOL = 'pysph/solver/solver.py'
 
@@ -147,6 +147,54 @@ def main(chk):
             not any(isinstance(x, (ast.Break, ast.Continue)) for x in ast.walk(lp[0]))
         chk.decide(ok, 'iteration-order', nm + ':each-once', node=lp[0] if lp else L.ast, file=SOL, func='Solver.solve',
                    detail_bad='%s are not each called exactly once per step as callback(self)' % nm, detail_ok='for callback in self.%s: callback(self)' % nm)
+    # ... and whatever guards such a loop is decided from the list as it is in this iteration (callbacks are registered while solve() runs - by the command
+    # handler, by other callbacks): the guard, with the locals of the iteration substituted, reads nothing computed before the time loop, and is true for a
+    # list of one and of two callbacks
+    import types
+    in_loop = set(id(x) for x in ast.walk(L.ast))
+    outer_locals = set(t.id for a in ast.walk(solve) if isinstance(a, (ast.Assign, ast.AugAssign, ast.AnnAssign)) and id(a) not in in_loop
+                       for t0 in (a.targets if isinstance(a, ast.Assign) else [a.target]) for t in ast.walk(t0) if isinstance(t, ast.Name) and isinstance(t.ctx, ast.Store))
+    iter_defs = N.local_defs(L.ast.body)
+    for nm in ('pre_step_callbacks', 'post_step_callbacks'):
+        for lp in [l for l in ast.walk(L.ast) if isinstance(l, ast.For) and compact(l.iter) == 'self.' + nm]:
+            cur, guards = lp, []
+            while cur is not L.ast:
+                par = M.enclosing(cur, (ast.If, ast.While, ast.For, ast.With, ast.Try))
+                if par is None or par is L.ast:
+                    break
+                if isinstance(par, ast.If):
+                    guards.append((par.test, any(cur is x for b in par.body for x in ast.walk(b))))
+                cur = par
+            ok, why, und = True, '', False
+            for test, pol in guards:
+                t2 = N.inline(test, iter_defs)
+                stale = sorted(x.id for x in ast.walk(t2) if isinstance(x, ast.Name) and x.id in outer_locals and x.id not in iter_defs)
+                if stale:
+                    ok, why = False, 'the guard `%s` reads %s, computed before the time loop' % (U(test), ', '.join(stale))
+                    break
+                others = [U(x) for x in ast.walk(t2) if isinstance(x, ast.Attribute) and isinstance(x.value, ast.Name) and x.value.id == 'self' and x.attr != nm]
+                free = [x.id for x in ast.walk(t2) if isinstance(x, ast.Name) and x.id not in ('self', 'len', 'bool', 'list', 'any', 'all')]
+                if others or free:
+                    und, why = True, 'the guard `%s` depends on %s' % (U(test), ', '.join(others + free))
+                    break
+                for lst in ([len], [len, abs]):
+                    try:
+                        val = bool(eval(compile(ast.fix_missing_locations(ast.Expression(body=t2)), '<guard>', 'eval'),
+                                        {'__builtins__': {}, 'len': len, 'bool': bool, 'list': list, 'any': any, 'all': all, 'self': types.SimpleNamespace(**{nm: lst})}))
+                    except Exception as ex:
+                        und, why = True, 'the guard `%s` could not be evaluated on a model list: %s' % (U(test), ex)
+                        break
+                    if val != pol:
+                        ok, why = False, 'the guard `%s` skips the loop for a list of %d callbacks' % (U(test), len(lst))
+                        break
+                if not ok or und:
+                    break
+            if und:
+                chk.undecided('iteration-order', nm + ':guard-looks-at-the-live-list', node=lp, file=SOL, func='Solver.solve', detail=why)
+            else:
+                chk.decide(ok, 'iteration-order', nm + ':guard-looks-at-the-live-list', node=lp, file=SOL, func='Solver.solve',
+                           detail_bad='callbacks registered while solve() runs are not called: ' + why,
+                           detail_ok='%d guard(s) around the loop, each true for a non-empty self.%s as it is in this iteration' % (len(guards), nm))
     st = [c for c in M.calls(L.ast) if M.call_name(c) == 'self.integrator.step']
     chk.decide(len(st) == 1 and [compact(a) for a in st[0].args] == ['self.t', 'self.dt'], 'iteration-order', 'step-arguments', node=st[0] if st else L.ast,
                file=SOL, func='Solver.solve', detail_bad='integrator.step(%s)' % (', '.join(U(a) for a in st[0].args) if st else ''),
